@@ -26,7 +26,7 @@ CLAIMED = {
  },
  "C14": {
   "text": "The unchanged code violates this property in three specific ways (genuine defect D14, not a small repair: the key format would have to change). Each is proved as a negation theorem with a concrete witness evaluated by the Lean kernel on the byte-level model of convert_to_comparable, replayed on the real code from corpus/C14, and listed in known_findings.json with a narrow matcher (class of the first difference found by walking the two documents in compare order). Every pair of derived documents is checked on the real code (key order vs compare); a disagreement outside the three classes is a VIOLATION. Key bytes themselves are tied by correspondence (with prefixes).",
-  "note": "Level is proof for the negations; the positive embedding theorem on the restricted domain is still open, so outside the finding classes the claim rests on the sampled oracle.",
+  "note": "Proof for the negations and for the positive embedding / injectivity theorems on the restricted domain (C14_embedding_partial, C14_key_eq_iff_partial; C14_not_embedding_deep shows the depth restriction is necessary); byte-level key = spec key (C14_key_refines). Outside the finding classes the real code is judged by the oracle.",
  },
  "C04": {
   "text": 'Refinement theorem: the byte-level model of compare (compare_scalar/container/array/object with their separately tracked offsets) returns exactly the documented comparison cmpJV on the encodings of any two good documents; cmpJV proved reflexive, antisymmetric, transitive, Equal iff equal JSON values (numbers by exact value), ranking of kinds, element-wise-then-length for arrays. Order laws are also evaluated on the real code for derived triples (cmplaws).',
@@ -41,8 +41,8 @@ CLAIMED = {
   "note": "Defect D8 (control characters emitted raw) repaired in /repo. Float formatting (ryu) is external and enters as the hypothesis fmtOK, discharged per instance by the goodFmt check in the driver.",
  },
  "C08": {
-  "text": 'Model of selector.rs (position frontier with raw offsets, select_* walkers, i64 index arithmetic, filter_expr dispatch, writers) and a tree-level denotational spec evalPaths. Proved: item-mode writers only append, indices in range without overflow, unsupported expressions are errors not panics, scalar roots. Correspondence (model vs Rust) and spec oracle (evalPaths on the decoded tree, re-encoded, vs Rust) in all four modes over paths drawn from each document (names, wildcards, index lists/ranges with last, nested filters with &&/||/exists, $-rooted operands, predicates).',
-  "note": "Defects D6 (todo!()), index overflow, D13 (scalar root) repaired in /repo. The refinement find_positions = evalPaths is not proved; cross-kind comparisons follow the code's derived order (not judged by the property).",
+  "text": 'Model of selector.rs (position frontier with raw offsets, select_* walkers, i64 index arithmetic, filter_expr dispatch, value collection and comparison, writers) and a tree-level denotational spec evalPaths. Proved refinement, unbounded over good documents and all paths the parser can build: in all mode the appended bytes are exactly the canonical encodings of the denoted items in document order with their offsets (soundness at every fuel, completeness, no panic, error iff the path denotes nothing), first/array/mixed/predicate modes, path_exists/path_match, termination; writers only append; index arithmetic exact. Correspondence (model vs Rust) and spec oracle (evalPaths on the decoded tree, re-encoded, vs Rust) in all four modes over paths drawn from each document.',
+  "note": "Defects D6 (todo!()), index overflow, D13 (scalar root) repaired in /repo. Cross-kind comparisons follow the code's derived order (not judged by the property). suppPaths (ASTs the parser can build) is not proved of the parser model.",
  },
  "C09": {
   "text": 'Model of jsonpath/parser.rs over a model of the nom 7.1.3 combinators (ordered choice, Failure propagation through cut, overflow-checked number recognisers): proved total for every byte string, print->parse identity for step sequences. Oracles: generated paths in random spacing/keyword-case/quoting layouts with the intended AST shipped in the request (jpexpect), print->parse round trip on the real code (jproundtrip), correspondence on corruptions, truncations and token soups.',
@@ -57,8 +57,16 @@ CLAIMED = {
   "note": 'Defects D4 (unterminated quote panic, empty string rejected) and tab/newline delimiters repaired in /repo.',
  },
  "C10": {
-  "text": "Theorem: for every byte string (and every fuel) the decoder model reaches no panic site; valid encodings decode without running out of fuel. The model mirrors de.rs/number.rs call by call with every unwrap/index/assert as an explicit panic outcome; correspondence runs truncations, bit flips, substitutions, insert/delete, rewritten count/type/length words and random bytes through parse_jsonb and the model. Any panic of the real code is reported as a violation.",
-  "note": "Three genuine defects were repaired first (fix: commits 62e309b, 3f3a454, 5f197fa). Still to be proved: UTF-8 of returned strings (checked by correspondence now), prefix rejection, text fallback of from_slice (needs the JSON parser model).",
+  "text": "Theorems about a model that mirrors de.rs/number.rs call by call with every unwrap/index/assert as an explicit panic outcome: for every byte string the decoder returns a value or an error (no panic site, fuel adequate); every string and key returned is valid UTF-8; every proper prefix of a valid encoding is rejected and valid encodings are consumed exactly; a text shorter than 2^27 bytes starting with a JSON start byte other than a space is rejected by the binary decoder, so from_slice parses it as text; from_slice never panics. Correspondence runs truncations at every offset, bit flips, substitutions, insert/delete, rewritten count/type/length words and random bytes through parse_jsonb / from_slice and the model. Any panic of the real code is a violation.",
+  "note": "Four genuine defects were repaired first (fix: commits 62e309b, 3f3a454, 5f197fa, 2d9dc44).",
+ },
+ "C11": {
+  "text": "Model T.* of every public document function INCLUDING its is_jsonb sniffing and its text branch, as written (which argument is sniffed, what a parse error returns). Theorems: for every accepted text (not starting with a space) the function on the text equals the function on the encoding of the text, in every text/binary combination, for all functions listed in evidence; via generic theorems for the parse-encode-run shape and via the C04/C05/C06 refinement theorems for tree-implemented text branches. Correspondence runs every op with `t:` (whole function) on text and binary arguments; the tj oracle runs, on the real code alone, each op under all 2^k text/binary choices against the all-binary call.",
+  "note": "Defects D12a/b (to_serde_json, type_of on text) and D17 (second argument sniffed with the first) repaired in /repo. Known finding D21: arrays with >= 2^24 elements are sniffed as text (C11_sniff_false_huge). contains/concat/delete_by_index text branches: correspondence + oracle only.",
+ },
+ "C19": {
+  "text": "Model of to_serde_json / to_serde_json_object (byte walker) and of the two From conversions over a mirror of serde_json::Value (PosInt/NegInt/Float, insertion-ordered map). Proved so far: number kinds and number round trip. Correspondence ties the walker model to the Rust on every generated document; the serdecheck oracle evaluates on the real code: structural equality with an independent strict parse of to_string's text (serde_json), number kinds, tree conversion = byte conversion, inverse conversion equal to the original, object-only variant.",
+  "note": "Structural refinement and inverse theorems for whole documents are still open (numbers done); the claim beyond numbers rests on correspondence and the oracle. serde_json's float parser is within 1 ulp of exact (false alarm corrected: the oracle tolerates 1 ulp only where serde_json's own parse is the reference).",
  },
  "C17": {
   "text": "Theorem (frame property): for every prior buffer content, Value::write_to_vec's model appends exactly the README layout of the value and leaves the prefix untouched; proved through the literal reserve_jentries/replace_jentry (List.set at absolute index) model. Correspondence runs write_to_vec with random and document-shaped prefixes.",
